@@ -21,6 +21,8 @@ type CompositeSequenceDFA struct {
 	numClasses int
 
 	// transitions[state * numClasses + class] = next state
+	// (anchored: the automaton of ONE match attempt; state 0 is dead, and the
+	// row of state 0 is also used to enter the automaton with the first byte)
 	transitions []uint16
 
 	// accepting marks which states are accepting
@@ -29,8 +31,22 @@ type CompositeSequenceDFA struct {
 	// numStates is the total number of DFA states
 	numStates int
 
+	// unanchored is the forward automaton of ALL match attempts at once (a new
+	// attempt starts at every byte of the first part): it finds where the
+	// earliest match ends. reverse is the anchored automaton of the reversed
+	// part sequence: it finds where the matches that end at a position start.
+	// Both are used when the first attempt fails, see searchAfterFailure.
+	unanchored compositeTable
+	reverse    compositeTable
+
 	// parts are the original pattern parts (for reference)
 	parts []*charClassPart
+}
+
+// compositeTable is a DFA over the byte classes of a CompositeSequenceDFA.
+type compositeTable struct {
+	transitions []uint16 // transitions[state * numClasses + class] = next state; state 0 is dead/start
+	accepting   []bool
 }
 
 // NewCompositeSequenceDFA creates a specialized DFA for composite patterns.
@@ -42,9 +58,11 @@ func NewCompositeSequenceDFA(re *syntax.Regexp) *CompositeSequenceDFA {
 	}
 
 	// Check all parts have minMatch >= 1 (no * quantifiers for now)
-	// and maxMatch == 0 (unbounded). Bounded maxMatch (e.g., bare \w with
-	// maxMatch=1, or \w{2,8}) requires counting characters per part, which
-	// the DFA doesn't support — fall back to CompositeSearcher backtracking.
+	// and are unbounded (maxMatch 0, or -1 from {n,}). Bounded maxMatch (e.g.,
+	// bare \w with maxMatch=1, or \w{2,8}) requires counting characters per part
+	// up to the maximum, which the DFA doesn't support — fall back to
+	// CompositeSearcher backtracking.
+	numConfigs := 0
 	for _, p := range parts {
 		if p.minMatch == 0 {
 			return nil // Star quantifiers need more complex handling
@@ -52,11 +70,28 @@ func NewCompositeSequenceDFA(re *syntax.Regexp) *CompositeSequenceDFA {
 		if p.maxMatch > 0 {
 			return nil // Bounded max requires character counting
 		}
+		numConfigs += p.minMatch
+	}
+	if numConfigs > maxCompositeConfigs {
+		return nil // Too many configurations for a configSet
 	}
 
 	d := &CompositeSequenceDFA{parts: parts}
 	d.buildByteClasses(parts)
-	d.buildDFASubsetConstruction(parts)
+
+	reversed := make([]*charClassPart, len(parts))
+	for i, p := range parts {
+		reversed[len(parts)-1-i] = p
+	}
+	anchored, ok1 := d.buildDFASubsetConstruction(parts, false)
+	unanchored, ok2 := d.buildDFASubsetConstruction(parts, true)
+	reverse, ok3 := d.buildDFASubsetConstruction(reversed, false)
+	if !ok1 || !ok2 || !ok3 {
+		return nil // Large minimums need too many states: left to the backtracker
+	}
+	d.transitions, d.accepting = anchored.transitions, anchored.accepting
+	d.numStates = len(anchored.accepting)
+	d.unanchored, d.reverse = unanchored, reverse
 
 	return d
 }
@@ -93,27 +128,34 @@ func (d *CompositeSequenceDFA) buildByteClasses(parts []*charClassPart) {
 	d.numClasses = int(classCount)
 }
 
-// configSet represents a set of NFA configurations (DFA state)
-type configSet uint32 // bitmask of (part * 2 + metMin)
+// configSet represents a set of NFA configurations (DFA state): a bitmask over
+// the configurations (part, seen) = "seen characters of the part consumed", where
+// seen counts up to the part's minMatch and stays there (minimum met). Part i
+// owns the bits offset_i .. offset_i+minMatch_i-1, offset_i being the sum of the
+// minimums of the parts before it.
+type configSet uint64
 
-func (c configSet) has(part int, metMin bool) bool {
-	idx := part * 2
-	if metMin {
-		idx++
+const (
+	// maxCompositeConfigs is the number of configurations a configSet can hold.
+	maxCompositeConfigs = 64
+	// maxCompositeStates bounds the size of a table (state IDs are uint16).
+	maxCompositeStates = 1024
+)
+
+// configBit returns the configuration (part, seen) as a configSet.
+func configBit(parts []*charClassPart, part, seen int) configSet {
+	offset := 0
+	for _, p := range parts[:part] {
+		offset += p.minMatch
 	}
-	return (c & (1 << idx)) != 0
+	return 1 << (offset + seen - 1)
 }
 
-func (c configSet) add(part int, metMin bool) configSet {
-	idx := part * 2
-	if metMin {
-		idx++
-	}
-	return c | (1 << idx)
-}
-
-// buildDFASubsetConstruction uses subset construction to build DFA from NFA configs
-func (d *CompositeSequenceDFA) buildDFASubsetConstruction(parts []*charClassPart) {
+// buildDFASubsetConstruction uses subset construction to build DFA from NFA configs.
+// With restart set, a new match attempt begins at every byte of the first part
+// (unanchored search); without it the DFA describes a single attempt.
+// It fails when the DFA would need more than maxCompositeStates states.
+func (d *CompositeSequenceDFA) buildDFASubsetConstruction(parts []*charClassPart, restart bool) (compositeTable, bool) {
 	numParts := len(parts)
 
 	// Map from config set to DFA state ID
@@ -133,8 +175,8 @@ func (d *CompositeSequenceDFA) buildDFASubsetConstruction(parts []*charClassPart
 	var transitionList [][]uint16 // transitionList[stateID][class] = nextStateID
 
 	// Process dead state: when we consume a char matching first part,
-	// we go to state (part0, metMin=true) since minMatch=1 and we consumed 1 char
-	firstCharState := configSet(0).add(0, true) // After consuming 1 char of first part
+	// we go to state (part0, 1 character seen)
+	firstCharState := configBit(parts, 0, 1) // After consuming 1 char of first part
 	if _, ok := configToState[firstCharState]; !ok {
 		configToState[firstCharState] = uint16(len(states))
 		states = append(states, firstCharState)
@@ -153,6 +195,9 @@ func (d *CompositeSequenceDFA) buildDFASubsetConstruction(parts []*charClassPart
 
 	// Process queue
 	for len(queue) > 0 {
+		if len(states) > maxCompositeStates {
+			return compositeTable{}, false
+		}
 		current := queue[0]
 		queue = queue[1:]
 		currentID := configToState[current]
@@ -163,12 +208,15 @@ func (d *CompositeSequenceDFA) buildDFASubsetConstruction(parts []*charClassPart
 			// Compute next config set for this class
 			next := d.computeNextConfigs(current, class, parts)
 
-			// NOTE: We intentionally do NOT restart from non-dead states.
-			// If computeNextConfigs returns dead (0), the search loop's outer
-			// iteration handles restarts via dead state transitions.
-			// Baking restarts into non-dead transitions would cause the DFA
-			// to continue past match boundaries (e.g. "ab123cd456" with
-			// [a-zA-Z]+\d+ would incorrectly return (0,10) instead of (0,5)).
+			// NOTE: The anchored DFA intentionally does NOT restart from non-dead
+			// states. If computeNextConfigs returns dead (0), the search loop
+			// handles restarts. Baking restarts into non-dead transitions would
+			// cause the DFA to continue past match boundaries (e.g. "ab123cd456"
+			// with [a-zA-Z]+\d+ would incorrectly return (0,10) instead of (0,5)).
+			// The unanchored DFA only looks for the earliest match end.
+			if restart && d.classMatchesPart(class, parts[0]) {
+				next |= firstCharState
+			}
 
 			// Get or create DFA state for next config set
 			if nextID, ok := configToState[next]; ok {
@@ -190,22 +238,22 @@ func (d *CompositeSequenceDFA) buildDFASubsetConstruction(parts []*charClassPart
 	}
 
 	// Flatten transitions
-	d.numStates = len(states)
-	d.transitions = make([]uint16, d.numStates*d.numClasses)
+	table := compositeTable{transitions: make([]uint16, len(states)*d.numClasses)}
 	for stateID, trans := range transitionList {
 		for class, nextID := range trans {
-			d.transitions[stateID*d.numClasses+class] = nextID
+			table.transitions[stateID*d.numClasses+class] = nextID
 		}
 	}
 
-	// Mark accepting states (those where last part has metMin=true)
-	d.accepting = make([]bool, d.numStates)
+	// Mark accepting states (those where last part has met its minimum)
+	table.accepting = make([]bool, len(states))
+	lastMet := configBit(parts, numParts-1, parts[numParts-1].minMatch)
 	for stateID, configs := range states {
-		// A state is accepting if it contains (lastPart, metMin=true)
-		if configs.has(numParts-1, true) {
-			d.accepting[stateID] = true
+		if configs&lastMet != 0 {
+			table.accepting[stateID] = true
 		}
 	}
+	return table, true
 }
 
 // computeNextConfigs computes the next config set after consuming a byte of given class
@@ -214,22 +262,26 @@ func (d *CompositeSequenceDFA) computeNextConfigs(current configSet, class int, 
 	var next configSet
 
 	for part := 0; part < numParts; part++ {
-		for _, metMin := range []bool{false, true} {
-			if !current.has(part, metMin) {
+		minMatch := parts[part].minMatch
+		for seen := 1; seen <= minMatch; seen++ {
+			if current&configBit(parts, part, seen) == 0 {
 				continue // This config not active
 			}
 
 			// Can we stay in current part?
 			if d.classMatchesPart(class, parts[part]) {
-				// Stay in part, update metMin
-				// For minMatch=1, seeing one char means metMin=true
-				next = next.add(part, true)
+				// Stay in part, count the character (up to the minimum)
+				if seen < minMatch {
+					next |= configBit(parts, part, seen+1)
+				} else {
+					next |= configBit(parts, part, minMatch)
+				}
 			}
 
 			// If we met minimum for current part, can we transition to next?
-			if metMin && part+1 < numParts && d.classMatchesPart(class, parts[part+1]) {
-				// Transition to next part
-				next = next.add(part+1, true) // parts have minMatch=1, so one char = metMin
+			if seen == minMatch && part+1 < numParts && d.classMatchesPart(class, parts[part+1]) {
+				// Transition to next part: its first character
+				next |= configBit(parts, part+1, 1)
 			}
 		}
 	}
@@ -262,12 +314,97 @@ func (d *CompositeSequenceDFA) Search(haystack []byte) (int, int, bool) {
 // SearchAt finds the first match starting at or after position 'at'.
 // Returns (start, end, found).
 //
-//nolint:gocognit // Loop unrolling for performance intentionally increases complexity
+// The first byte of the first part is the leftmost position a match can start
+// at; most searches end there with one anchored scan. Only when that attempt
+// fails is the leftmost match located with the unanchored and the reverse
+// automaton (searchAfterFailure). Every step reads a region that ends at the
+// match end at the latest, so a search is O(n) and so is a FindAll iteration.
 func (d *CompositeSequenceDFA) SearchAt(haystack []byte, at int) (int, int, bool) {
 	n := len(haystack)
 	if n == 0 {
 		return -1, -1, false
 	}
+
+	// Skip positions where first byte doesn't match first part
+	firstPartClass := d.firstPartClasses()
+	start := at
+	for start < n && !firstPartClass[haystack[start]] {
+		start++
+	}
+	if start >= n {
+		return -1, -1, false
+	}
+
+	if end := d.matchAt(haystack, start); end > 0 {
+		return start, end, true
+	}
+	return d.searchAfterFailure(haystack, start+1)
+}
+
+// searchAfterFailure finds the leftmost match starting at or after 'from' in
+// three linear passes. (Resuming the attempts behind the byte that killed the
+// failed one would be wrong: in [a-z]+[0-9]+[a-z]+[.,]+ on "a1a1a." the attempt
+// at 0 dies at the second '1', but a match starts at 2. Trying every position in
+// turn would be quadratic.)
+//
+//  1. The unanchored automaton finds the earliest position at which a match ends.
+//  2. The reverse automaton, anchored there, finds the leftmost start of the
+//     matches that end at that position. This is the leftmost match start
+//     overall: if a match [S,E) starts left of a match [s,e) that ends earlier,
+//     [S,e) is a match too - follow the parts of the first one up to the first
+//     byte that both assign to the same part, then the parts of the second one
+//     (such a byte exists because the first match is "ahead" at s and "behind"
+//     at e-1, and part numbers grow by at most one per byte).
+//  3. The anchored automaton finds the greedy match end for that start.
+func (d *CompositeSequenceDFA) searchAfterFailure(haystack []byte, from int) (int, int, bool) {
+	n := len(haystack)
+
+	// Copy to local vars to help compiler optimize
+	byteToClass := d.byteToClass
+	numClasses := d.numClasses
+
+	// Pass 1: earliest match end
+	transitions, accepting := d.unanchored.transitions, d.unanchored.accepting
+	earliestEnd := -1
+	state := 0
+	for pos := from; pos < n; pos++ {
+		state = int(transitions[state*numClasses+int(byteToClass[haystack[pos]])])
+		if accepting[state] {
+			earliestEnd = pos + 1
+			break
+		}
+	}
+	if earliestEnd < 0 {
+		return -1, -1, false
+	}
+
+	// Pass 2: leftmost start of a match ending there
+	transitions, accepting = d.reverse.transitions, d.reverse.accepting
+	start := -1
+	state = 0
+	for pos := earliestEnd - 1; pos >= from; pos-- {
+		state = int(transitions[state*numClasses+int(byteToClass[haystack[pos]])])
+		if state == 0 {
+			break
+		}
+		if accepting[state] {
+			start = pos
+		}
+	}
+	if start < 0 {
+		return -1, -1, false
+	}
+
+	// Pass 3: greedy match end
+	return start, d.matchAt(haystack, start), true
+}
+
+// matchAt runs one match attempt: the match must start at 'start', whose byte
+// belongs to the first part. It returns the end of the longest match, or -1.
+//
+//nolint:gocognit // Loop unrolling for performance intentionally increases complexity
+func (d *CompositeSequenceDFA) matchAt(haystack []byte, start int) int {
+	n := len(haystack)
 
 	// Copy to local vars to help compiler optimize
 	byteToClass := d.byteToClass
@@ -275,129 +412,72 @@ func (d *CompositeSequenceDFA) SearchAt(haystack []byte, at int) (int, int, bool
 	numClasses := d.numClasses
 	accepting := d.accepting
 
-	// Skip positions where first byte doesn't match first part
-	// Find the first byte class that can start a match
-	firstPartClass := d.firstPartClasses()
+	lastAcceptEnd := -1
 
-	for start := at; start < n; start++ {
-		// Fast skip: check if this position can start a match
-		if !firstPartClass[haystack[start]] {
-			continue
-		}
+	// First transition (we know first byte matches)
+	class := int(byteToClass[haystack[start]])
+	state := int(transitions[class]) // From dead state (0)
 
-		state := 0 // Dead state
-		matchStart := start
-		lastAcceptEnd := -1
-
-		// First transition (we know first byte matches)
-		class := int(byteToClass[haystack[start]])
-		state = int(transitions[class]) // From dead state (0)
-
-		if accepting[state] {
-			lastAcceptEnd = start + 1
-		}
-
-		pos := start + 1
-
-		// Unrolled loop: process 4 bytes at a time when possible
-		for pos+3 < n {
-			// Byte 1
-			b0 := haystack[pos]
-			class0 := int(byteToClass[b0])
-			state = int(transitions[state*numClasses+class0])
-			if state == 0 {
-				if lastAcceptEnd > 0 {
-					return matchStart, lastAcceptEnd, true
-				}
-				start = pos - 1 // Skip: dead byte at pos, outer loop start++ → pos
-				goto nextStart
-			}
-			if accepting[state] {
-				lastAcceptEnd = pos + 1
-			}
-
-			// Byte 2
-			b1 := haystack[pos+1]
-			class1 := int(byteToClass[b1])
-			state = int(transitions[state*numClasses+class1])
-			if state == 0 {
-				if lastAcceptEnd > 0 {
-					return matchStart, lastAcceptEnd, true
-				}
-				start = pos // Skip: dead byte at pos+1
-				goto nextStart
-			}
-			if accepting[state] {
-				lastAcceptEnd = pos + 2
-			}
-
-			// Byte 3
-			b2 := haystack[pos+2]
-			class2 := int(byteToClass[b2])
-			state = int(transitions[state*numClasses+class2])
-			if state == 0 {
-				if lastAcceptEnd > 0 {
-					return matchStart, lastAcceptEnd, true
-				}
-				start = pos + 1 // Skip: dead byte at pos+2
-				goto nextStart
-			}
-			if accepting[state] {
-				lastAcceptEnd = pos + 3
-			}
-
-			// Byte 4
-			b3 := haystack[pos+3]
-			class3 := int(byteToClass[b3])
-			state = int(transitions[state*numClasses+class3])
-			if state == 0 {
-				if lastAcceptEnd > 0 {
-					return matchStart, lastAcceptEnd, true
-				}
-				start = pos + 2 // Skip: dead byte at pos+3
-				goto nextStart
-			}
-			if accepting[state] {
-				lastAcceptEnd = pos + 4
-			}
-
-			pos += 4
-		}
-
-		// Handle remaining bytes
-		for pos < n {
-			b := haystack[pos]
-			class := int(byteToClass[b])
-			idx := state*numClasses + class
-			nextState := int(transitions[idx])
-
-			if nextState == 0 {
-				if lastAcceptEnd > 0 {
-					return matchStart, lastAcceptEnd, true
-				}
-				break // Dead state, rely on unified skip after loop
-			}
-
-			state = nextState
-
-			if accepting[state] {
-				lastAcceptEnd = pos + 1
-			}
-			pos++
-		}
-
-		// End of input - check if we have an accepting position
-		if lastAcceptEnd > 0 {
-			return matchStart, lastAcceptEnd, true
-		}
-
-		// Skip: all bytes up to pos already processed, advance outer loop
-		start = pos - 1
-
-	nextStart:
+	if accepting[state] {
+		lastAcceptEnd = start + 1
 	}
 
-	return -1, -1, false
+	pos := start + 1
+
+	// Unrolled loop: process 4 bytes at a time when possible
+	for pos+3 < n {
+		// Byte 1
+		state = int(transitions[state*numClasses+int(byteToClass[haystack[pos]])])
+		if state == 0 {
+			return lastAcceptEnd
+		}
+		if accepting[state] {
+			lastAcceptEnd = pos + 1
+		}
+
+		// Byte 2
+		state = int(transitions[state*numClasses+int(byteToClass[haystack[pos+1]])])
+		if state == 0 {
+			return lastAcceptEnd
+		}
+		if accepting[state] {
+			lastAcceptEnd = pos + 2
+		}
+
+		// Byte 3
+		state = int(transitions[state*numClasses+int(byteToClass[haystack[pos+2]])])
+		if state == 0 {
+			return lastAcceptEnd
+		}
+		if accepting[state] {
+			lastAcceptEnd = pos + 3
+		}
+
+		// Byte 4
+		state = int(transitions[state*numClasses+int(byteToClass[haystack[pos+3]])])
+		if state == 0 {
+			return lastAcceptEnd
+		}
+		if accepting[state] {
+			lastAcceptEnd = pos + 4
+		}
+
+		pos += 4
+	}
+
+	// Handle remaining bytes
+	for pos < n {
+		state = int(transitions[state*numClasses+int(byteToClass[haystack[pos]])])
+		if state == 0 {
+			break
+		}
+		if accepting[state] {
+			lastAcceptEnd = pos + 1
+		}
+		pos++
+	}
+
+	return lastAcceptEnd
 }
 
 // firstPartClasses returns a lookup table indicating which bytes can start a match.
@@ -417,7 +497,8 @@ func IsCompositeSequenceDFAPattern(re *syntax.Regexp) bool {
 		return false
 	}
 
-	// Check all parts have minMatch >= 1 and maxMatch == 0 (unbounded)
+	// Check all parts have minMatch >= 1 and are unbounded (see NewCompositeSequenceDFA)
+	numConfigs := 0
 	for _, p := range parts {
 		if p.minMatch == 0 {
 			return false
@@ -425,7 +506,8 @@ func IsCompositeSequenceDFAPattern(re *syntax.Regexp) bool {
 		if p.maxMatch > 0 {
 			return false
 		}
+		numConfigs += p.minMatch
 	}
 
-	return true
+	return numConfigs <= maxCompositeConfigs
 }
